@@ -1,7 +1,7 @@
 (* The theorems instantiated with the element names regenerated from the current lib/ctu.cpp
    (Gen_Names.gen_names).  `current_names_ok` is an obligation on the source: it fails to check as
    soon as a writer's element name differs from its reader's again. *)
-From CV Require Import Base.Bytes Ctu.Defs Ctu.RoundTrip Ctu.Gen_Names.
+From CV Require Import Base.Bytes Ctu.Defs Ctu.XmlProofs Ctu.RoundTrip Ctu.Gen_Names.
 
 Lemma current_names_ok : nm_ok gen_names.
 Proof. apply nm_okb_ok. vm_compute. reflexivity. Qed.
@@ -15,3 +15,31 @@ Proof. intros s H. apply store_load; [exact current_names_ok|exact H]. Qed.
 Lemma current_wp_storage_independent : forall depth warn l, forallb safe_fsum l = true ->
     whole_program depth warn (map (fun s => load gen_names (store gen_names s)) l) = whole_program depth warn l.
 Proof. intros. apply wp_storage_independent; [exact current_names_ok|assumption]. Qed.
+
+(* ids and argument names are written through ErrorLogger::toxml (fix cf4f724): obligation on the source *)
+Definition ids_escb (nm : names) : bool := e_callid nm && e_ncmyid nm && e_uumyid nm && e_uuarg nm.
+
+Lemma current_ids_escaped : ids_escb gen_names = true.
+Proof. vm_compute. reflexivity. Qed.
+
+Lemma ids_esc_flags nm : ids_escb nm = true ->
+  e_callid nm = true /\ e_ncmyid nm = true /\ e_uumyid nm = true /\ e_uuarg nm = true.
+Proof. unfold ids_escb. rewrite !andb_true_iff. tauto. Qed.
+
+(* whatever bytes a file name contains, the written id never breaks the attribute ... *)
+Lemma current_id_wellformed : forall s,
+    raw_ok (wr (e_callid gen_names) s) = true /\ raw_ok (wr (e_ncmyid gen_names) s) = true /\
+    raw_ok (wr (e_uumyid gen_names) s) = true /\ raw_ok (wr (e_uuarg gen_names) s) = true.
+Proof.
+  intro s. destruct (ids_esc_flags _ current_ids_escaped) as (A & B & C & D).
+  rewrite A, B, C, D. cbn [wr]. repeat split; apply toxml_raw_ok.
+Qed.
+
+(* ... and comes back unchanged on the whole lossless domain, double quote and ampersand included *)
+Lemma current_id_roundtrip : forall s, safe_str s = true ->
+    dec (wr (e_callid gen_names) s) = s /\ dec (wr (e_ncmyid gen_names) s) = s /\
+    dec (wr (e_uumyid gen_names) s) = s /\ dec (wr (e_uuarg gen_names) s) = s.
+Proof.
+  intros s H. destruct (ids_esc_flags _ current_ids_escaped) as (A & B & C & D).
+  rewrite A, B, C, D. cbn [wr]. repeat split; apply XmlProofs.dec_toxml_safe; exact H.
+Qed.
